@@ -55,6 +55,7 @@ var verifCsInserts int           // number of Data packets handed to the Content
 //
 //@ func (github.com/named-data/ndnd/fw/dispatch.Face).SendPacket
 //@   ensures [clock-kept] ghostFwClock == old(ghostFwClock)
+//@   ensures [pit-schedule-kept] ghostPitUnsched == old(ghostPitUnsched) && ghostPitDueNow == old(ghostPitDueNow) && ghostPitAnswered == old(ghostPitAnswered) && ghostPitLastRecorded == old(ghostPitLastRecorded) && ghostPitRecordings == old(ghostPitRecordings)
 //@   requires out.Pkt != nil && out.Pkt.L3 != nil && (out.Pkt.L3.Interest == nil) != (out.Pkt.L3.Data == nil)
 //@   requires !(self.Scope() == defn.NonLocal && specIsLocalhost(specPktName(out.Pkt)))
 //@   modifies verifSends, verifLastFace, verifLastToken, verifSentSet[*]
@@ -82,6 +83,7 @@ func specIsNexthop(nexthops []*table.FibNextHopEntry, n int, k uint64) bool {
 // strategies rely on; the scope rule itself is the precondition of SendPacket (discharged at the call sites inside).
 //
 //@ func (*Thread).processOutgoingData
+//@   ensures [pit-schedule-kept] ghostPitUnsched == old(ghostPitUnsched) && ghostPitDueNow == old(ghostPitDueNow) && ghostPitAnswered == old(ghostPitAnswered) && ghostPitLastRecorded == old(ghostPitLastRecorded) && ghostPitRecordings == old(ghostPitRecordings)
 //@   requires packet != nil && packet.L3 != nil && packet.L3.Data != nil && packet.L3.Interest == nil
 //@   modifies t.NOutData, t.NSatisfiedInterests, verifSends, verifLastFace, verifLastToken, verifSentSet[*]
 //@   ensures [at-most-one] (verifSends == old(verifSends) && verifLastFace == old(verifLastFace)) || (verifSends == old(verifSends)+1 && verifLastFace == nexthop && sameSlice(verifLastToken, pitToken))
@@ -135,6 +137,75 @@ func specFwClockAt(i int) time.Time { return specFwClockAt(i) }
 //@   modifies verifCsInserts, all(table.nameTreePitEntry), all(table.pitCsTreeNode), all(table.PitCsTree), all(table.baseCsEntry)
 //@   ensures verifCsInserts == old(verifCsInserts)+1
 
+// ---------------------------------------------------------------------------------------
+// C08, pipeline side: every PIT entry that a pipeline call leaves behind has its removal scheduled.
+//
+// The PIT reaper (PitCsTree.Update, fw/table) removes exactly the entries that sit in the expiry queue; an entry gets
+// there (or has its queue position refreshed) only through table.UpdateExpirationTimer (latest deadline among the
+// recorded Interests) or table.SetExpirationTimerToNow (immediate removal). An entry that a pipeline call creates, or
+// records a further Interest in, and then leaves without one of these calls stays in the PIT for ever. The ghost state
+// below is the pipelines' view of this (environment model of fw/table, assumed; the table side is verified in fw/table).
+// Three sets of PIT entries, each represented by a ghost version number v and the uninterpreted membership predicate
+// specPitIn(v, e) (a call that changes a set gets a new version whose members its contract relates to the old one):
+//
+//   ghostPitUnsched      entries that were created / had an Interest recorded in them and whose removal has NOT been
+//                        (re)scheduled since;
+//   ghostPitDueNow       entries whose removal is scheduled for "now" (a clock reading taken by the scheduling call) and
+//                        has not been moved to a later time since;
+//   ghostPitAnswered     entries that have been marked satisfied;
+//   ghostPitLastRecorded the entry in which the last in-record was inserted; ghostPitRecordings counts the insertions.
+// ---------------------------------------------------------------------------------------
+
+var ghostPitUnsched int
+var ghostPitDueNow int
+var ghostPitAnswered int
+var ghostPitLastRecorded table.PitEntry
+var ghostPitRecordings int
+
+func specPitIn(version int, e table.PitEntry) bool { panic("ghost") }
+
+// InsertInterest (environment model; the first clause repeats the interface contract of fw/table): the entry returned
+// when the Interest is not a duplicate may be new, i.e. not in the expiry queue: its removal is still to be scheduled.
+//
+//@ func (github.com/named-data/ndnd/fw/table.PitCsTable).InsertInterest
+//@   modifies all(table.basePitEntry), all(table.nameTreePitEntry), all(table.pitCsTreeNode), all(table.PitCsTree), ghostPitUnsched
+//@   ensures result0 != nil && typeIs(result0, "*table.nameTreePitEntry") && result0.(*table.nameTreePitEntry).inRecords != nil
+//@   ensures [new-entry-unscheduled] specPitIn(ghostPitUnsched, result0) == (!result1 || specPitIn(old(ghostPitUnsched), result0))
+//@   ensures [others-kept] forall(func(e table.PitEntry) bool { return e != result0 ==> specPitIn(ghostPitUnsched, e) == specPitIn(old(ghostPitUnsched), e) })
+
+// InsertInRecord (environment model): recording an Interest gives the entry a new latest deadline; the removal scheduled
+// before (if any) no longer accounts for it.
+//
+//@ func (github.com/named-data/ndnd/fw/table.PitEntry).InsertInRecord
+//@   modifies ghostPitUnsched, ghostPitLastRecorded, ghostPitRecordings
+//@   ensures [deadline-changed] specPitIn(ghostPitUnsched, self) && ghostPitLastRecorded == self && ghostPitRecordings == old(ghostPitRecordings)+1
+//@   ensures [others-kept] forall(func(e table.PitEntry) bool { return e != self ==> specPitIn(ghostPitUnsched, e) == specPitIn(old(ghostPitUnsched), e) })
+
+// SetSatisfied (environment model): the entry is marked satisfied.
+//
+//@ func (github.com/named-data/ndnd/fw/table.PitEntry).SetSatisfied
+//@   modifies ghostPitAnswered
+//@   ensures [marked] specPitIn(ghostPitAnswered, self) == (isSatisfied || specPitIn(old(ghostPitAnswered), self))
+//@   ensures [others-kept] forall(func(e table.PitEntry) bool { return e != self ==> specPitIn(ghostPitAnswered, e) == specPitIn(old(ghostPitAnswered), e) })
+
+// UpdateExpirationTimer (environment model; concrete contract in fw/table): the entry is queued for removal at the latest
+// deadline among its records (not earlier than now). It is no longer unscheduled, and no longer due now.
+//
+//@ func github.com/named-data/ndnd/fw/table.UpdateExpirationTimer
+//@   requires e != nil
+//@   modifies ghostPitUnsched, ghostPitDueNow, all(table.basePitEntry.expirationTime), all(table.nameTreePitEntry.pqItem), all(table.PitCsTree)
+//@   ensures [scheduled] !specPitIn(ghostPitUnsched, e) && !specPitIn(ghostPitDueNow, e)
+//@   ensures [others-kept] forall(func(k table.PitEntry) bool { return k != e ==> specPitIn(ghostPitUnsched, k) == specPitIn(old(ghostPitUnsched), k) && specPitIn(ghostPitDueNow, k) == specPitIn(old(ghostPitDueNow), k) })
+
+// SetExpirationTimerToNow (environment model; concrete contract in fw/table): the entry is queued for removal at the clock
+// reading taken by the call.
+//
+//@ func github.com/named-data/ndnd/fw/table.SetExpirationTimerToNow
+//@   requires e != nil
+//@   modifies ghostPitUnsched, ghostPitDueNow, all(table.basePitEntry.expirationTime), all(table.nameTreePitEntry.pqItem), all(table.PitCsTree)
+//@   ensures [scheduled-now] !specPitIn(ghostPitUnsched, e) && specPitIn(ghostPitDueNow, e)
+//@   ensures [others-kept] forall(func(k table.PitEntry) bool { return k != e ==> specPitIn(ghostPitUnsched, k) == specPitIn(old(ghostPitUnsched), k) && specPitIn(ghostPitDueNow, k) == specPitIn(old(ghostPitDueNow), k) })
+
 // Incoming pipelines. "Never accepted from a non-local face": a /localhost packet from a non-local face is dropped
 // before it is counted, looked up, inserted anywhere or forwarded (NInInterests / the PIT-CS are untouched: the
 // counter is the first thing an accepted Interest changes; for Data the drop precedes the CS insertion and the PIT lookup).
@@ -148,6 +219,11 @@ func specFwClockAt(i int) time.Time { return specFwClockAt(i) }
 //@   ensures [reject-nonlocal-localhost] old(packet.IncomingFaceID != nil && dispatch.GetFace(*packet.IncomingFaceID) != nil && dispatch.GetFace(*packet.IncomingFaceID).Scope() == defn.NonLocal && specIsLocalhost(packet.L3.Interest.NameV)) ==> t.NInInterests == old(t.NInInterests)
 //@   ensures [hop-limit-zero] old(packet.L3.Interest.HopLimitV != nil && *packet.L3.Interest.HopLimitV == 0) ==> verifSends == old(verifSends) && t.NInInterests == old(t.NInInterests)
 //@   ensures [hop-limit-dec] verifSends != old(verifSends) && old(packet.L3.Interest.HopLimitV) != nil ==> *old(packet.L3.Interest.HopLimitV) == old(*packet.L3.Interest.HopLimitV)-1
+//@   ensures [expiry-scheduled] forall(func(e table.PitEntry) bool { return specPitIn(ghostPitUnsched, e) ==> specPitIn(old(ghostPitUnsched), e) })
+//@   ensures [recorded-entry-scheduled] ghostPitRecordings != old(ghostPitRecordings) ==> !specPitIn(ghostPitUnsched, ghostPitLastRecorded)
+// (An entry answered from the cache is NOT required to be due at once: other faces may still have unsatisfied Interests
+// recorded in it; after the cached Data has gone to the asking face the removal is scheduled by UpdateExpirationTimer for
+// when the remaining records expire, at once if there are none. [expiry-scheduled] is the clause that carries C08 here.)
 
 //@ func (*Thread).processIncomingData
 //@   requires packet != nil && packet.L3 != nil && packet.L3.Data != nil && packet.L3.Interest == nil && sameSlice(packet.Name, packet.L3.Data.NameV)
@@ -156,6 +232,16 @@ func specFwClockAt(i int) time.Time { return specFwClockAt(i) }
 //@   modifies verifSends, verifLastFace, verifLastToken, verifSentSet[*], all(table.nameTreePitEntry), all(table.pitCsTreeNode), all(table.PitCsTree), all(table.basePitEntry), all(table.baseCsEntry), all(table.PitOutRecord), all(table.PitInRecord), t.deadNonceList.expirationQueue.pq, all(table.ghostDnlItems), t.deadNonceList.list[*], t.NInData, t.NOutData, t.NSatisfiedInterests, verifCsInserts
 //@   ensures [reject-nonlocal-localhost] old(packet.IncomingFaceID != nil && dispatch.GetFace(*packet.IncomingFaceID) != nil && dispatch.GetFace(*packet.IncomingFaceID).Scope() == defn.NonLocal && len(packet.Name) > 0 && specIsLocalhost(packet.L3.Data.NameV)) ==> t.NOutData == old(t.NOutData) && t.deadNonceList.list == old(t.deadNonceList.list) && verifCsInserts == old(verifCsInserts) && verifSends == old(verifSends)
 //@   loop 3 invariant [downstreams-are-pending] forall(func(k uint64) bool { return mapHas(downstreams, k) ==> visited(k) })
+//@   ensures [satisfied-reaped-promptly] forall(func(e table.PitEntry) bool { return specPitIn(ghostPitAnswered, e) && !specPitIn(old(ghostPitAnswered), e) ==> specPitIn(ghostPitDueNow, e) })
+//@   ensures [expiry-scheduled] forall(func(e table.PitEntry) bool { return specPitIn(ghostPitUnsched, e) ==> specPitIn(old(ghostPitUnsched), e) })
+//@   loop 2 invariant [satisfied-reaped-promptly] forall(func(e table.PitEntry) bool { return specPitIn(ghostPitAnswered, e) && !specPitIn(old(ghostPitAnswered), e) ==> specPitIn(ghostPitDueNow, e) })
+//@   loop 2 invariant [expiry-scheduled] forall(func(e table.PitEntry) bool { return specPitIn(ghostPitUnsched, e) ==> specPitIn(old(ghostPitUnsched), e) })
+//@   loop 3 invariant [satisfied-reaped-promptly] forall(func(e table.PitEntry) bool { return specPitIn(ghostPitAnswered, e) && !specPitIn(old(ghostPitAnswered), e) ==> specPitIn(ghostPitDueNow, e) })
+//@   loop 3 invariant [expiry-scheduled] forall(func(e table.PitEntry) bool { return specPitIn(ghostPitUnsched, e) ==> specPitIn(old(ghostPitUnsched), e) })
+//@   loop 4 invariant [satisfied-reaped-promptly] forall(func(e table.PitEntry) bool { return specPitIn(ghostPitAnswered, e) && !specPitIn(old(ghostPitAnswered), e) ==> specPitIn(ghostPitDueNow, e) })
+//@   loop 4 invariant [expiry-scheduled] forall(func(e table.PitEntry) bool { return specPitIn(ghostPitUnsched, e) ==> specPitIn(old(ghostPitUnsched), e) })
+//@   loop 5 invariant [satisfied-reaped-promptly] forall(func(e table.PitEntry) bool { return specPitIn(ghostPitAnswered, e) && !specPitIn(old(ghostPitAnswered), e) ==> specPitIn(ghostPitDueNow, e) })
+//@   loop 5 invariant [expiry-scheduled] forall(func(e table.PitEntry) bool { return specPitIn(ghostPitUnsched, e) ==> specPitIn(old(ghostPitUnsched), e) })
 
 // ---------------------------------------------------------------------------------------
 // C01 / C02: strategies (what is sent where), stated over the ghost send trace
